@@ -222,6 +222,21 @@ func appendSnapshotFlavors(b []byte, s *slip.Scope) []byte {
 	for _, f := range fa {
 		b = append(b, '\n')
 		b = pp.Append(b, s, f.LoadForm())
+		// The methods and daemons the flavor defines itself.
+		for _, name := range f.MethodNames() {
+			for _, daemon := range []string{":primary", ":before", ":after", ":whopper"} {
+				if dml := f.DefMethodList(string(name.(slip.Symbol)), daemon, false); dml != nil {
+					switch daemon {
+					case ":primary":
+						dml[1] = slip.List{slip.Symbol(f.Name()), name}
+					case ":whopper":
+						dml[0] = slip.Symbol("defwhopper")
+						dml[1] = slip.List{slip.Symbol(f.Name()), name}
+					}
+					b = pp.Append(b, s, dml)
+				}
+			}
+		}
 	}
 	return b
 }
